@@ -23,13 +23,13 @@ import (
 )
 
 type report struct {
-	Files             int      `json:"files"`
-	SyncImports       int      `json:"sync_imports_rewritten"`
-	GoStmts           int      `json:"go_statements_rewritten"`
-	Unhooked          int      `json:"unhooked_constructs"`
-	UnhookedWhere     []string `json:"unhooked_where,omitempty"`
-	Packages          []string `json:"packages"`
-	TimeImports       int      `json:"time_imports_rewritten"`
+	Files         int      `json:"files"`
+	SyncImports   int      `json:"sync_imports_rewritten"`
+	GoStmts       int      `json:"go_statements_rewritten"`
+	Unhooked      int      `json:"unhooked_constructs"`
+	UnhookedWhere []string `json:"unhooked_where,omitempty"`
+	Packages      []string `json:"packages"`
+	TimeImports   int      `json:"time_imports_rewritten"`
 }
 
 func main() {
